@@ -986,7 +986,7 @@ func c07_5(c *core.Ctx, p *core.Prog) {
 		// the `ok` edge is taken for the types the helper knows only — provided the helper's own default (every
 		// payload test of its own false) answers false — so it is an arm, not part of the default
 		switched := first.Cond.(*ssa.BinOp).X
-		var slotCalls []*ssa.Call
+		var slotCalls []ssa.Value
 		for _, b := range fn.Blocks {
 			iff := core.IfOf(b)
 			if iff == nil {
@@ -994,6 +994,14 @@ func c07_5(c *core.Ctx, p *core.Prog) {
 			}
 			ex, ok := iff.Cond.(*ssa.Extract)
 			if !ok || !isBool(ex.Type()) {
+				continue
+			}
+			if lk, ok := ex.Tuple.(*ssa.Lookup); ok && lk.CommaOk && ex.Index == 1 {
+				// a table keyed by the payload type (`slot, found := uniqueRecords[payloadType]`): absent keys answer false
+				if _, isMap := lk.X.Type().Underlying().(*types.Map); isMap && (lk.Index == switched || core.SameValue(lk.Index, switched)) {
+					cut[core.Edge{From: b, To: b.Succs[0]}] = true
+					slotCalls = append(slotCalls, lk)
+				}
 				continue
 			}
 			cl, ok := ex.Tuple.(*ssa.Call)
@@ -1142,7 +1150,7 @@ func c07_5(c *core.Ctx, p *core.Prog) {
 		// store is dominated by `*slot != nil → return error` on the same pointer
 		for _, cl := range slotCalls {
 			var slot ssa.Value
-			for _, r := range core.Referrers(cl) {
+			for _, r := range *cl.Referrers() {
 				if ex, ok := r.(*ssa.Extract); ok {
 					if pt, ok := ex.Type().(*types.Pointer); ok {
 						if _, ok := pt.Elem().(*types.Pointer); ok {
